@@ -2,7 +2,7 @@
 import solvercheck, framework
 PID = "C02"
 MODULE = "MysticVerif.Props.C02"
-THEOREMS = ["MysticVerif.C02.evalB_in_box", "MysticVerif.C02.de_evaluations_in_box", "MysticVerif.C02.de_best_in_box", "MysticVerif.C02.nm_evaluations_in_box", "MysticVerif.C02.nm_best_in_box_of_fixed", "MysticVerif.C02.clip1_in_box", "MysticVerif.C02.clip1_id"]
+THEOREMS = ["MysticVerif.C02.evalB_in_box", "MysticVerif.C02.de_evaluations_in_box", "MysticVerif.C02.de_best_in_box", "MysticVerif.C02.nm_evaluations_in_box", "MysticVerif.C02.nm_best_in_box_of_fixed", "MysticVerif.C02.clip1_in_box", "MysticVerif.C02.clip1_id", "MysticVerif.C02.pw_evaluations_in_box", "MysticVerif.C02.pw_best_in_box"]
 
 
 def run_shard(pid, seed, shard, ncases, tier, extra):
@@ -14,7 +14,7 @@ def main(tier, seed):
 
 
 RULE_EXTRA = 'extra stream: SetRandomInitialPoints / SetInitialPoints stay within their limits; tight x clip grid incl. the randomising clip=False (monitor only).'
-TRUSTED_EXTRA = ['clip=False (random re-draws) and Powell: monitor only']
+TRUSTED_EXTRA = ['clip=False (random re-draws): monitor only', "Powell: the Brent line search is an oracle of the model (which points it evaluates, which one it returns), recorded from the real run; the contract 'never worse than the start' (LsMono) is checked on every recorded search; everything else of PowellDirectionalSolver._Step is computed by the model and replayed bit for bit (histogram model:pw, pw-iterations, pw-extrapolation-searches)"]
 
 
 def replay(path):
